@@ -22,8 +22,10 @@ CARRY = [2, 3, 4, 5, 6, 9]      # names that carry the suffix .conf
 
 def body(l, r, shape):
     s = ""
-    if shape in ("b", "n"):
+    if shape in ("b", "n", "h"):
         s += "K=%d%d\nU%d%d=1\n" % (l, r, l, r)
+    if shape == "h":
+        s += "[S]\n"                     # header-only section
     if shape in ("b", "s"):
         s += "[S]\nK=%d%d\nU%d%d=1\n" % (l, r, l, r)
     return s
@@ -201,7 +203,7 @@ def f4_expect(rec):
     m = as_map(rec["exp"]["ents"])
     l, r = rec["log"][0]
     dshape = rec["shp"][1]
-    for sec, on in (("", dshape in "bn"), ("S", dshape in "bs")):
+    for sec, on in (("", dshape in "bnh"), ("S", dshape in "bs")):
         if on:
             m[(tuple(codes(sec)), tuple(codes("U%d%d" % (l, r))))] = (49,)
     return m
@@ -318,7 +320,7 @@ def check_c01(exe, tier, seed, verdict):
     rnd = random.Random(seed)
     # exhaustive: 3 layers x 4 main kinds x all subsets of 3 (quick) / 4 (thorough) suffix-carrying names
     names = [3, 4, 6] if tier == "quick" else [3, 4, 5, 6]
-    shapes = ["bb", "ns", "sn"] if tier == "quick" else ["bb", "ns", "sn", "nn", "ss", "bs"]
+    shapes = ["bb", "ns", "sn", "hs", "bh"] if tier == "quick" else ["bb", "ns", "sn", "nn", "ss", "bs", "hs", "hb", "sh", "bh", "hh"]
     r, recs, total = tree_export(3, names, 12, shapes[:1] if tier == "quick" else shapes[:1])
     if r.violated:
         verdict.violation("C01:model", {"tlc": r.out[-3000:]}, "TLC: Read(tree) differs from UapiRef(tree)\n" + r.out[-1500:])
@@ -642,7 +644,7 @@ def sorted_ents(ents):
 def check_c12(exe, tier, seed, verdict):
     rnd = random.Random(seed)
     names = [3, 4, 6]
-    r, recs, total = tree_export(2, names, 12, ["bb", "ns", "sn"] if tier == "thorough" else ["bb", "sn"])
+    r, recs, total = tree_export(2, names, 12, ["bb", "ns", "sn", "hs", "bh"] if tier == "thorough" else ["bb", "sn", "hs"])
     if r.violated:
         verdict.violation("C12:model", {"tlc": r.out[-3000:]}, "TLC: HistoryFolds / LayeredIsUapi violated for 2 layers\n" + r.out[-1500:])
     if tier == "quick" and len(recs) > 1500:
